@@ -276,7 +276,10 @@ package model
 //@   panics_iff [missing] !(c.Id in a.Criteria)
 //@   ensures [rescaled] result == rescaled(*c, a.Criteria[c.Id], *currentRange, scale, *target)
 
+// isRescaledOf(w, c, alts, tgt): w holds criterion c's values of the alternatives alts rescaled to tgt (a relation, assumed of every call)
+//@ spec isRescaledOf(w Weights, c Criterion, alts *[]AlternativeWithCriteria, tgt *utils.ValueRange) bool
 //@ func RescaleCriterion
+//@   assumes [the_rescaled_values_of_these_alternatives] isRescaledOf(result, *c, alternatives, target)
 //@   property C18 C01 C07 C09 C20
 //@   ensures [fresh] fresh(result) && result != nil
 //@   ensures [all] forall k int :: 0 <= k && k < len(*alternatives) ==> (*alternatives)[k].Id in result
@@ -413,12 +416,12 @@ package model
 //@ spec blLen(it utils.IdentifiableIterable) int = len(it.(*BiasListeners).Listeners)
 //@ spec blAt(it utils.IdentifiableIterable, i int) utils.Identifiable = it.(*BiasListeners).Listeners[i]
 //@ func (*BiasListeners).Len
-//@   property C20 C07
+//@   property C20 C07 C15
 //@   nopanic
 //@   refines utils.IdentifiableIterable.Len with iterLen=blLen
 //@   ensures result == len(pf.Listeners)
 //@ func (*BiasListeners).Get
-//@   property C20 C07
+//@   property C20 C07 C15
 //@   refines utils.IdentifiableIterable.Get with iterAt=blAt
 //@   ensures 0 <= index && index < len(pf.Listeners) && result == pf.Listeners[index]
 // Fetch: the listener registered under the method's name; an unknown name is rejected
@@ -737,6 +740,7 @@ package model
 //@   loop 1 invariant [ctx] fresh(copied) && len(copied) == alternativesCount && alternativesCount == len(*alternatives) && i < alternativesCount && unchanged(*alternatives)
 //@   loop 1 invariant [members] forall k int :: 0 <= k && k < len(copied) ==> exists j int :: 0 <= j && j < len(*alternatives) && copied[k] == (*alternatives)[j]
 //@   loop 1 invariant [none_twice] distinctAltIds(*alternatives) ==> distinctAltIds(copied)
+//@   loop 1 hint [position_i_is_swapped_with_the_integer_part_of_a_draw_times_i] exists u real :: 0.0 <= u && u < 1.0 && j == trunc(u * real(head(i)))
 
 // RemoveAlternative deletes the first element with the given id IN PLACE (the caller must own the backing array)
 //@ func RemoveAlternative
